@@ -238,6 +238,44 @@ func c09CheckImage(img, scratch []byte, hb []byte) (sig, what string) {
 			return "unexplained:image-changed", fmt.Sprintf("after editing header bytes %v of the image (same ROM object), ReadHeader;WriteHeader changed the image at file offset $%06x: $%02x instead of $%02x", edit, firstDiff(img, scratch), img[firstDiff(img, scratch)], scratch[firstDiff(img, scratch)])
 		}
 	}
+	// HeaderOffset and Contents are exported fields: the header can be re-read from another place (a HiROM
+	// image keeps it at $FFB0) or from another image on the same ROM object
+	if len(img) >= 0x10000 {
+		copy(img[0xFFB0:], hb)
+		for i := 0; i < 0x50; i++ {
+			img[0x7FB0+i] ^= 0x3C // what sits at the old place is something else now
+		}
+		copy(scratch, img)
+		rom.HeaderOffset = 0xFFB0
+		if err := rom.ReadHeader(); err != nil {
+			return "unexplained:rom-read-error", err.Error()
+		}
+		if rom.Header.HeaderVersion() != c09ExpectedVersion(hb) {
+			return "unexplained:version", fmt.Sprintf("after moving HeaderOffset to $FFB0 the ROM header version is %d, want %d (the header at $7FB0 is a different one)", rom.Header.HeaderVersion(), c09ExpectedVersion(hb))
+		}
+		if err := rom.WriteHeader(); err != nil {
+			return "unexplained:rom-write-error", err.Error()
+		}
+		if !bytes.Equal(img, scratch) {
+			return "unexplained:image-changed", fmt.Sprintf("HeaderOffset=$FFB0; ReadHeader; WriteHeader changed the image at file offset $%06x", firstDiff(img, scratch))
+		}
+		rom.HeaderOffset = 0x7FB0
+	}
+	other := append([]byte(nil), img...)
+	for i := 0; i < 0x50; i++ {
+		other[0x7FB0+i] = hb[i] ^ byte(0x11*(i%3))
+	}
+	oscr := append([]byte(nil), other...)
+	rom.Contents = other
+	if err := rom.ReadHeader(); err != nil {
+		return "unexplained:rom-read-error", err.Error()
+	}
+	if err := rom.WriteHeader(); err != nil {
+		return "unexplained:rom-write-error", err.Error()
+	}
+	if !bytes.Equal(other, oscr) {
+		return "unexplained:image-changed", fmt.Sprintf("Contents replaced by another image; ReadHeader; WriteHeader changed that image at file offset $%06x", firstDiff(other, oscr))
+	}
 	return "", ""
 }
 
